@@ -152,6 +152,45 @@ func loadEngine() (*Engine, error) {
 		}
 		e.contractFiles = append(e.contractFiles, ext)
 	}
+	// implicit lock-context preconditions
+	for key, srcs := range e.cf.LockCtx {
+		fc := e.cf.Funcs[key]
+		if fc == nil {
+			return nil, fmt.Errorf("lockctx names %s, which has no contract", key)
+		}
+		for _, src := range srcs {
+			c, err := mkClause("requires", src, "lockctx", 0)
+			if err != nil {
+				return nil, err
+			}
+			c.Name = fmt.Sprintf("%s.lockctx%d", fc.Name, len(fc.Requires)+1)
+			fc.Requires = append(fc.Requires, c)
+		}
+	}
+	// tree-walk callbacks: establishment and stability of the per-entry postcondition
+	for _, key := range e.cf.FuncOrder {
+		fc := e.cf.Funcs[key]
+		if fc.Walkpost == nil {
+			continue
+		}
+		wp := fc.Walkpost
+		pd := e.cf.Preds[wp.Pred]
+		if pd == nil || len(pd.Params) != 2 {
+			return nil, fmt.Errorf("walkpost of %s: %s is not a predicate with two parameters", fc.Name, wp.Pred)
+		}
+		srcs := []string{
+			fmt.Sprintf("%s result == nil ==> %s(%s, %s)", wp.Tags, wp.Pred, wp.Args[0], wp.Args[1]),
+			fmt.Sprintf("%s forall q__ %s, d__ %s :: q__ != %s && old(%s(q__, d__)) ==> %s(q__, d__)", wp.Tags, pd.Params[0].Type, pd.Params[1].Type, wp.Args[0], wp.Pred, wp.Pred),
+		}
+		for i, src := range srcs {
+			c, err := mkClause("ensures", src, "walkpost", fc.Line)
+			if err != nil {
+				return nil, err
+			}
+			c.Name = fmt.Sprintf("%s.walkpost.%s", fc.Name, []string{"established", "stable"}[i])
+			fc.Ensures = append(fc.Ensures, c)
+		}
+	}
 	// index functions
 	for fn := range ssautil.AllFunctions(prog) {
 		if fn.Pkg == nil {
@@ -345,7 +384,7 @@ func (e *Engine) globalNeverWritten(g *ssa.Global) bool {
 		if fn.Pkg == nil || !strings.HasPrefix(fn.Pkg.Pkg.Path(), modPath) {
 			continue
 		}
-		if fn.Name() == "init" {
+		if fn.Name() == "init" || strings.HasPrefix(fn.Name(), "init#") {
 			continue
 		}
 		for _, b := range fn.Blocks {
